@@ -141,8 +141,9 @@ func VerifC06() {
 	if extra == "" && verifFlag("rootExists") {
 		// some root already exists (as a directory or as a file); only when the target exists
 		existing = int(verifChoose("which", 0, uint(len(roots)-1)))
-		// the root exists already: as a directory, as a regular file, or as a symbolic link to a directory
-		switch ek := int(verifChoose("existKind", 1, 3)); ek {
+		// the root exists already: as a directory, as a regular file, as a symbolic link to a directory, or as a
+		// symbolic link to nothing (4)
+		switch ek := int(verifChoose("existKind", 1, 4)); ek {
 		case 3:
 			vfsAdd([]string{rootNames[existing]}, 1)
 			vfsMakeLink([]string{rootNames[existing]})
@@ -193,7 +194,11 @@ func VerifC06Root() {
 	exists := false
 	if extra == "" && verifFlag("rootExists") {
 		exists = true
-		vfsAdd([]string{root.name}, int(verifChoose("existKind", 1, 2)))
+		ek := int(verifChoose("existKind", 1, 3))
+		if ek == 3 {
+			ek = 4 // a symbolic link to nothing
+		}
+		vfsAdd([]string{root.name}, ek)
 	}
 	vfsSeal()
 	verifContext("C06.mkdirroot")
@@ -225,13 +230,15 @@ func VerifC06Root() {
 
 // VerifC06Fault: the file system refuses operations. (a) one node (solver-chosen) carries a name of more than 255
 // bytes, which every operation touching it refuses with ENAMETOOLONG (model: an element equal to that name is
-// refused; natively the OS does it); (b) the target directory is a regular file (ENOTDIR on everything below it).
+// refused; natively the OS does it); (b) the target directory is a regular file (ENOTDIR on everything below it);
+// (c) the target directory is a symbolic link to nothing.
 // The call must not report success. Both families; extension list empty or {".x"}.
 func VerifC06Fault() {
 	n := verifN()
 	targetIsFile := verifFlag("targetIsFile")
+	targetDangling := !targetIsFile && verifFlag("targetDangling")
 	long := -1
-	if !targetIsFile {
+	if !targetIsFile && !targetDangling {
 		long = int(verifChoose("long", 0, uint(n-1)))
 	}
 	cnt := 0
@@ -251,6 +258,10 @@ func VerifC06Fault() {
 	}
 	if targetIsFile {
 		vfsTargetAsFile()
+	}
+	if targetDangling {
+		// the target directory is a symbolic link to nothing: Stat does not see it, Mkdir collides with it
+		vfsTargetAsDangling()
 	}
 	var err error
 	verifContext("C06.fault")
@@ -272,6 +283,9 @@ func VerifC06Fault() {
 	cls := "/longname"
 	if targetIsFile {
 		cls = "/targetisfile"
+	}
+	if targetDangling {
+		cls = "/targetdangling"
 	}
 	verifAssert(err != nil, "C06.fault.reported"+cls)
 	verifReach("C06.fault.end")
